@@ -299,6 +299,13 @@ func c20Worker(args []string) int {
 		if rng.Intn(8) == 0 {
 			q.Question[0].Qtype = dns.TypeANY
 		}
+		if rng.Intn(5) == 0 { // classes other than IN: the front handlers and the database handler do not look at the class
+			q.Question[0].Qclass = []uint16{dns.ClassCHAOS, dns.ClassHESIOD, dns.ClassNONE, dns.ClassANY, 2, 65280}[rng.Intn(6)]
+			sum.Counts["non_in_class_queries"]++
+			if q.Question[0].Qtype == dns.TypeANY {
+				sum.Counts["non_in_class_any_queries"]++
+			}
+		}
 		tcp := rng.Intn(3) == 0
 		if sz := sizes[rng.Intn(len(sizes))]; sz > 0 {
 			harness.AddECS(q, "", uint16(sz))
@@ -432,7 +439,7 @@ func oneLine(m *dns.Msg) string {
 }
 
 func runC20(r *report.Run) {
-	r.SetRule("a real fbserver.Server on a loopback port (UDP+TCP) per configuration {backend x whoami domain set/unset x refuse-any on/off x max-answer 1/3/8 x 127.0.0.1/::1, plus servers bound to two addresses with different max-answer settings}, race-detector build, child process each; generated queries (names of a generated file, standard and ANY types, no EDNS / 512 / 1232 / 4096, with and without ECS) sent with a DNS client over UDP and TCP; every reply is compared canonically with the bare FBDNSDB handler on the same database, remote address and max-answer (addresses reduced to owner+type); oversized answers (40 TXT / 40 NS with glue) must come back with TC over UDP within the advertised size (actual datagram length) and complete over TCP; ANY with refusal must be exactly the synthesized HINFO; whoami-domain queries must be answered by the whoami handler; a question-less message must get a failure rcode and the server must keep answering; shutdown is performed under load. non-trivial = configuration whose exchanges include a truncated reply and a TCP reply; distinct by configuration")
+	r.SetRule("a real fbserver.Server on a loopback port (UDP+TCP) per configuration {backend x whoami domain set/unset x refuse-any on/off x max-answer 1/3/8 x 127.0.0.1/::1, plus servers bound to two addresses with different max-answer settings}, race-detector build, child process each; generated queries (names of a generated file, standard and ANY types, one in five with a class other than IN, no EDNS / 512 / 1232 / 4096, with and without ECS) sent with a DNS client over UDP and TCP; every reply is compared canonically with the bare FBDNSDB handler on the same database, remote address and max-answer (addresses reduced to owner+type); oversized answers (40 TXT / 40 NS with glue) must come back with TC over UDP within the advertised size (actual datagram length) and complete over TCP; ANY with refusal must be exactly the synthesized HINFO; whoami-domain queries must be answered by the whoami handler; a question-less message must get a failure rcode and the server must keep answering; shutdown is performed under load. non-trivial = configuration whose exchanges include a truncated reply and a TCP reply; distinct by configuration")
 	r.Assume("loopback only; the harness picks a port free for UDP and TCP and retries on bind failure")
 	var cfgs []c20Config
 	i := 0
